@@ -174,6 +174,7 @@ class LoopMachine:
         # of the iteration number K and are not part of the carried state
         exd, _, _ = self._fresh([])
         run_init(exd)
+        exd.hooks = self.base or Hooks()         # neutral: the detection must see every branch, not one forced path
         derived = exd.detect_derived(node.get("body"), inc_parts(), None, None)
         derived = {i: kd for i, kd in derived.items() if kd[0] == "add"}
         entry = {i: exd.env[i] for i in derived}
